@@ -80,7 +80,7 @@ static tOpcodeList const OpcodeList[256] = {
         /* 0x13 */
         {  eUnknown, 0, 0,   NULL},
         /* 0x14 */
-        { eImplicit, 0, 1,  "nba"},
+        {  eUnknown, 0, 0,   NULL},
         /* 0x15 */
         {  eUnknown, 0, 0,   NULL},
         /* 0x16 */
@@ -438,7 +438,7 @@ static tOpcodeList const OpcodeList[256] = {
         /* 0xc6 */
         {eImmediate, 0, 1, "ldab"},
         /* 0xc7 */
-        {eImmediate, 0, 1, "stab"},
+        {  eUnknown, 0, 0,   NULL},
         /* 0xc8 */
         {eImmediate, 0, 1, "eorb"},
         /* 0xc9 */
